@@ -73,17 +73,13 @@ class Ctx:
 
 # ---------------------------------------------------------------- Go side
 
-def go_test(ctx, module, pkg, overlay, run, env=None, timeout=600, race=False, extra=None):
-    """Run `go test` in REPO/<module> on ./<pkg> with harness files injected by -overlay.
-    overlay: {file name inside the package dir: path relative to /verif/harness/go}."""
-    ov = {"Replace": {}}
-    for dst, src in overlay.items():
-        ov["Replace"][os.path.join(REPO, module, pkg, dst)] = os.path.join(VERIF, "harness", "go", src)
+def _go_test_once(ctx, module, pkg, repl, run, env, timeout, race, extra, tagx=""):
+    ov = {"Replace": dict(repl)}
     xov = os.environ.get("VERIF_EXTRA_OVERLAY")
     if xov:
         # self-test hook: run a check against a mutated copy of a source file without touching /repo
         ov["Replace"].update(json.load(open(xov)).get("Replace", {}))
-    ovp = ctx.path("overlay_%s.json" % hashlib.sha1((module + pkg + run).encode()).hexdigest()[:8])
+    ovp = ctx.path("overlay_%s%s.json" % (hashlib.sha1((module + pkg + run).encode()).hexdigest()[:8], tagx))
     with open(ovp, "w") as f:
         json.dump(ov, f)
     cmd = ["go", "test", "-tags", "verif", "-overlay", ovp, "-run", "^" + run + "$", "-count=1",
@@ -98,12 +94,216 @@ def go_test(ctx, module, pkg, overlay, run, env=None, timeout=600, race=False, e
     e["VERIF_TIER"] = ctx.tier
     if env:
         e.update({k: str(v) for k, v in env.items()})
+    if "VERIF_RENAMES" not in e:
+        # functions / types renamed anywhere in the tree under check (empty on the unchanged tree): harnesses that read
+        # function names at run time (stack dumps, runtime.Callers) map them back with vCanonNames
+        inv = _decl_renames_inverse()
+        if inv:
+            e["VERIF_RENAMES"] = json.dumps(inv)
     try:
         p = subprocess.run(cmd, cwd=os.path.join(REPO, module), env=e, capture_output=True, text=True,
                            timeout=timeout + 120)
         return p.returncode, p.stdout + p.stderr
     except subprocess.TimeoutExpired as ex:
         return 124, "TIMEOUT " + str(ex)
+
+
+_DECL_INV = None
+
+
+def _decl_renames_inverse():
+    global _DECL_INV
+    if _DECL_INV is None:
+        try:
+            infer_renames(".")
+            _DECL_INV = {v: k for k, v in getattr(infer_renames, "decls", {}).items()}
+        except Exception:  # pragma: no cover
+            _DECL_INV = {}
+    return _DECL_INV
+
+
+def go_test(ctx, module, pkg, overlay, run, env=None, timeout=600, race=False, extra=None):
+    """Run `go test` in REPO/<module> on ./<pkg> with harness files injected by -overlay.
+    overlay: {file name inside the package dir: path relative to /verif/harness/go}.
+    When the harness does not compile because the tree under check RENAMED unexported identifiers it uses, the harness
+    is re-bound to the new names (see rebind_harness) and run again; on the unchanged tree this path is never taken."""
+    repl = {}
+    for dst, src in overlay.items():
+        repl[os.path.join(REPO, module, pkg, dst)] = src if os.path.isabs(src) else os.path.join(VERIF, "harness", "go", src)
+    rc, out = _go_test_once(ctx, module, pkg, repl, run, env, timeout, race, extra)
+    if rc != 0 and "[build failed]" in out and os.environ.get("VERIF_NO_REBIND") != "1":
+        try:
+            rb = rebind_harness(ctx, module, pkg, repl, run, env, timeout, race, extra, out)
+        except Exception as ex:  # pragma: no cover
+            ctx.say("note: harness re-binding failed: %r" % (ex,))
+            rb = None
+        if rb is not None:
+            return rb
+    return rc, out
+
+
+# ---- re-binding a harness after a rename of unexported identifiers in the tree under check
+
+_GO_ERR = re.compile(r"^(/[^:\n]+\.go):(\d+):(\d+): (.*)$", re.M)
+_IDENT = re.compile(r"[A-Za-z_][A-Za-z0-9_]*")
+_GO_KEYWORDS = set("break default func interface select case defer go map struct chan else goto package switch const "
+                   "fallthrough if range type continue for import return var nil true false".split())
+
+
+def _tokens(line):
+    return re.findall(r"[A-Za-z_][A-Za-z0-9_]*|\d+|\s+|.", line)
+
+
+def infer_renames(module):
+    """Identifier renames between the source the harnesses were written against (tools/harness_base.txt, else HEAD)
+    and the working tree of REPO: pairs of removed/added lines of `git diff -U0` that are token-for-token equal
+    except for identifiers vote for old->new; a name is taken only when its votes agree."""
+    base = "HEAD"
+    try:
+        b = open(os.path.join(VERIF, "tools", "harness_base.txt")).read().strip()
+        if b and subprocess.run(["git", "-C", REPO, "cat-file", "-e", b + "^{commit}"], capture_output=True).returncode == 0:
+            base = b
+    except Exception:
+        pass
+    p = subprocess.run(["git", "-C", REPO, "diff", "-U0", "--no-color", base, "--", module], capture_output=True, text=True)
+    if p.returncode != 0:
+        return {}
+    votes = {}
+    decls = {}
+    rem, add = [], []
+
+    def flush():
+        if rem and len(rem) == len(add):
+            for a, b2 in zip(rem, add):
+                ta = [t for t in _tokens(a) if not t.isspace()]
+                tb = [t for t in _tokens(b2) if not t.isspace()]
+                if len(ta) != len(tb):
+                    continue
+                diffs = [(x, y) for x, y in zip(ta, tb) if x != y]
+                if not diffs or not all(_IDENT.fullmatch(x) and _IDENT.fullmatch(y) and x not in _GO_KEYWORDS
+                                        and y not in _GO_KEYWORDS for x, y in diffs):
+                    continue
+                for x, y in set(diffs):
+                    votes.setdefault(x, {}).setdefault(y, 0)
+                    votes[x][y] += 1
+                if ta and ta[0] in ("func", "type"):
+                    for x, y in set(diffs):
+                        decls[x] = y
+        rem.clear()
+        add.clear()
+
+    for line in p.stdout.splitlines():
+        if line.startswith("@@") or line.startswith("diff "):
+            flush()
+        elif line.startswith("---") or line.startswith("+++"):
+            continue
+        elif line.startswith("-"):
+            rem.append(line[1:])
+        elif line.startswith("+"):
+            add.append(line[1:])
+    flush()
+    # candidates per old name, most votes first (the compiler arbitrates between them in rebind_harness)
+    infer_renames.decls = decls
+    return {old: sorted(cands, key=lambda c: (-cands[c], c))[:4] for old, cands in votes.items()}
+
+
+def rebind_harness(ctx, module, pkg, repl, run, env, timeout, race, extra, out):
+    """The compiler names every place where the harness uses an identifier that no longer exists; each such place is
+    rewritten to the name the tree under check renamed it to (infer_renames), in a copy of the harness file, and the
+    build is retried (a few rounds: the compiler reports a limited number of errors at a time).  Returns (rc, out) of the
+    run with the re-bound harness, or None when the failure is not (only) a rename - then the original failure stands."""
+    ren = infer_renames(module)
+    if not ren:
+        return None
+    rbdir = ctx.path("rebound_" + hashlib.sha1((module + pkg + run).encode()).hexdigest()[:8])
+    os.makedirs(rbdir, exist_ok=True)
+    cur = dict(repl)
+    copies = {}   # original harness path -> path of its re-bound copy
+    texts = {}    # original harness path -> current lines
+    subs = {}     # (original path, line) -> [[original name, index of the candidate in use, current text]]
+    used = {}
+    extra2 = list(extra or []) + ["-gcflags=-e"]
+    back = {}     # copy path -> original path
+    for rnd in range(16):
+        errs = _GO_ERR.findall(out)
+        fixed = 0
+        touched = set()
+        seen = set()
+        for path, ln, col, msg in errs:
+            name = None
+            for pat in (r"undefined: ([A-Za-z_][A-Za-z0-9_]*)$", r"has no field or method ([A-Za-z_][A-Za-z0-9_]*)\)",
+                        r"unknown field ([A-Za-z_][A-Za-z0-9_]*) in struct literal",
+                        r"undefined: [A-Za-z_][A-Za-z0-9_]*\.([A-Za-z_][A-Za-z0-9_]*)$"):
+                m = re.search(pat, msg)
+                if m:
+                    name = m.group(1)
+                    break
+            if name is None:
+                continue
+            orig = back.get(path, path)
+            if not any(os.path.abspath(s2) in (os.path.abspath(orig), os.path.abspath(copies.get(orig, orig))) for s2 in cur.values()):
+                continue
+            ln = int(ln)
+            col = int(col)
+            if (orig, ln, col, name) in seen:
+                continue
+            seen.add((orig, ln, col, name))
+            if orig not in texts:
+                texts[orig] = open(orig).read().split("\n")
+            lines = texts[orig]
+            if ln - 1 >= len(lines):
+                continue
+            line = lines[ln - 1]
+            place = subs.setdefault((orig, ln), [])
+            prev = next((e for e in place if e[2] == name), None)
+            if prev is not None:
+                # the candidate put here in an earlier round is not what the compiler wants: try the next one
+                cands = ren.get(prev[0], [])
+                if prev[1] + 1 >= len(cands):
+                    continue
+                newname = cands[prev[1] + 1]
+                prev[1] += 1
+                prev[2] = newname
+                key = prev[0]
+            elif name in ren:
+                newname = ren[name][0]
+                place.append([name, 0, newname])
+                key = name
+            else:
+                continue
+            rx = re.compile(r"\b%s\b" % re.escape(name))
+            m = rx.search(line, max(0, col - 1)) or rx.search(line)
+            if not m:
+                continue
+            lines[ln - 1] = line[:m.start()] + newname + line[m.end():]
+            used[key] = newname
+            fixed += 1
+            touched.add(orig)
+        if not fixed:
+            return None
+        for orig in touched:
+            cp = copies.get(orig) or os.path.join(rbdir, "%s_%s" % (hashlib.sha1(orig.encode()).hexdigest()[:6], os.path.basename(orig)))
+            with open(cp, "w") as f:
+                f.write("\n".join(texts[orig]))
+            copies[orig] = cp
+            back[cp] = orig
+            for d, s2 in list(cur.items()):
+                if os.path.abspath(s2) in (os.path.abspath(orig), os.path.abspath(cp)):
+                    cur[d] = cp
+        # names observed at run time (stack dumps, runtime.Callers) are mapped back to the names the harness and the
+        # model know: new -> old for renamed declarations and for every name re-bound above
+        inv = dict(_decl_renames_inverse())
+        inv.update({v: k for k, v in used.items()})
+        env2 = dict(env or {})
+        env2["VERIF_RENAMES"] = json.dumps(inv)
+        rc, out = _go_test_once(ctx, module, pkg, cur, run, env2, timeout, race, extra2, tagx="_rb")
+        if "[build failed]" not in out:
+            msg = "harness for %s/%s re-bound to identifiers renamed in the tree under check: %s" % (
+                module, pkg, ", ".join("%s->%s" % kv for kv in sorted(used.items())))
+            ctx.say("note: " + msg)
+            ctx.notes.append(msg)
+            return rc, out
+    return None
 
 
 def read_jsonl(path):
@@ -373,7 +573,12 @@ Goal True. let m := eval cbv delta [M_] in M_ in idtac "@@MISMATCH =" m. let c :
 
 def coq_bytes(bs):
     """bytes -> Coq list of Init.Byte constructors (cheapest literal form)."""
-    return "[" + ";".join("x%02x" % b for b in bs) + "]"
+    if len(bs) <= 4096:
+        return "[" + ";".join("x%02x" % b for b in bs) + "]"
+    # a single literal of tens of thousands of elements overflows coqc's stack (one cons per nesting level while it
+    # is elaborated): long strings are emitted as a concatenation of short literals
+    parts = ["[" + ";".join("x%02x" % b for b in bs[i:i + 4096]) + "]" for i in range(0, len(bs), 4096)]
+    return "(" + " ++ ".join(parts) + ")%list"
 
 
 def digest(bs):
